@@ -1,7 +1,11 @@
 #!/usr/bin/env python3
 """Helper for seeded changes (not a check).
   seed.py confirm <worktree> <demo-test-name> <outdir>   confirm demo fails with / passes without the change, baseline 70 pass
-  seed.py try <seeded-dir> <prop> [<prop>...]            apply patch.diff to /repo, run ./check <prop> --tier quick, undo"""
+  seed.py try <seeded-dir> <prop> [<prop>...]            apply patch.diff to /repo, run ./check <prop> --tier quick, undo
+  seed.py ptry <seeded-dir> <name> <prop> [<prop>...]    the same without touching /repo: a scratch worktree of /repo with the
+                                                         patch applied and a scratch copy of /verif whose harness depends on it
+                                                         (under /tmp/pv/<name>, removed afterwards); for exploring several changes
+                                                         at once - the recorded confirmation of a kept change is always `try`"""
 import json
 import os
 import subprocess
@@ -47,7 +51,32 @@ def try_(sdir, props):
     print(json.dumps({p: r["caught"] for p, r in res.items()}))
 
 
+def ptry(sdir, name, props, tier="quick"):
+    base = f"/tmp/pv/{name}"
+    sh(f"git -C /repo worktree remove --force {base}/repo; rm -rf {base}")
+    os.makedirs(base)
+    rc, o = sh(f"git -C /repo worktree add -q --detach {base}/repo HEAD && git -C {base}/repo apply {os.path.abspath(sdir)}/patch.diff")
+    if rc != 0:
+        print("worktree/apply failed", o)
+        return
+    res = {}
+    try:
+        sh(f"rsync -a --exclude .git --exclude work --exclude replays --exclude seeded /verif/ {base}/verif/")
+        sh(f"sed -i 's#path = \"/repo\"#path = \"{base}/repo\"#' {base}/verif/harness/Cargo.toml")
+        for p in props:
+            rc, o = sh(f"./check {p} --tier {tier} 2>&1 | tail -8", cwd=f"{base}/verif")
+            viol = "VIOLATION" in o
+            res[p] = viol
+            print(f"== {p}: {'CAUGHT' if viol else 'missed'}\n{o[-900:]}")
+    finally:
+        sh(f"git -C /repo worktree remove --force {base}/repo; rm -rf {base}")
+    print(json.dumps(res))
+
+
 if __name__ == "__main__":
+    if sys.argv[1] == "ptry":
+        ptry(sys.argv[2], sys.argv[3], sys.argv[4:])
+        sys.exit(0)
     if sys.argv[1] == "confirm":
         confirm(sys.argv[2], sys.argv[3], sys.argv[4])
     else:
